@@ -23,7 +23,7 @@ class TOpt(T):
 
 class ClassSpec:
     def __init__(self, name, file=None, bases=(), fields=None, ghost=None, invariant=None, abstract=False,
-                 impls=(), notes='', optional=()):
+                 impls=(), notes='', optional=(), opaque_inv=False):
         self.name = name
         self.file = file
         self.bases = list(bases)
@@ -34,6 +34,7 @@ class ClassSpec:
         self.impls = list(impls)
         self.notes = notes
         self.optional = list(optional)
+        self.opaque_inv = opaque_inv
 
     def all_fields(self):
         out = {}
@@ -100,7 +101,7 @@ class FuncSpec:
                  raises=None, modifies=None, modifies_args=(), ghost_update=None, pure=False, ret=None,
                  returns_self=False, loops=None, lemmas=None, logical=None, inline=False, may_fail=False,
                  assume_only=False, entry_inv=True, exit_inv=True, notes='', src_cls=None, implements=None,
-                 local_types=None, exc_inv=False, src_name=None):
+                 local_types=None, exc_inv=False, src_name=None, opaque=None, callee_variants=None):
         self.key = key
         self.file = file
         self.params = dict(params or {})
@@ -129,6 +130,8 @@ class FuncSpec:
         self.local_types = dict(local_types or {})
         self.exc_inv = exc_inv
         self.src_name = src_name
+        self.callee_variants = dict(callee_variants or {})
+        self.opaque = opaque            # lambda(c) -> opaque atom standing for the whole postcondition (assumed at call sites)
 
     @property
     def cls_name(self):
@@ -246,18 +249,14 @@ def forall_key(f, sort=sym.KeyS, pats=None):
     k = z3.Const(sym.fresh_name('qk'), sort)
     body = f(k)
     p = pats(k) if pats else None
-    if p:
-        return z3.ForAll([k], body, patterns=p)
-    return z3.ForAll([k], body)
+    return sym.forall([k], body, p)
 
 
 def forall_int(f, pats=None):
     i = z3.Int(sym.fresh_name('qi'))
     body = f(i)
     p = pats(i) if pats else None
-    if p:
-        return z3.ForAll([i], body, patterns=p)
-    return z3.ForAll([i], body)
+    return sym.forall([i], body, p)
 
 
 def exists_int(f):
@@ -275,3 +274,47 @@ def R(x):
     if isinstance(x, (int, float, Fraction)):
         return Fraction(x) if not isinstance(x, float) else x
     return z3.ToReal(x) if x.sort() == z3.IntSort() else x
+
+
+_pure_fns = {}
+
+
+def pure_fn(fs, recv_sort, arg_sorts):
+    """a pure function under contract is a deterministic function of (receiver state, arguments)"""
+    k = (fs.key, str(recv_sort), tuple(str(a) for a in arg_sorts))
+    if k not in _pure_fns:
+        name = 'pure_' + fs.key.replace('.', '_').replace('#', '_')
+        doms = ([recv_sort] if recv_sort is not None else []) + list(arg_sorts)
+        _pure_fns[k] = z3.Function(name, *doms, fs.ret.sort())
+    return _pure_fns[k]
+
+
+def pure_call(key, objview, *args):
+    """the result of a pure function under contract, as a spec-level term (same term the call site gets)"""
+    fs = FUNCS[key]
+    f = pure_fn(fs, objview.term.sort() if objview is not None else None, [a.sort() for a in args])
+    term = f(*([objview.term] if objview is not None else []), *args)
+    return view(fs.ret.wrap(term))
+
+
+_inv_preds = {}
+
+
+def INV(clsname, term):
+    """opaque class invariant: an uninterpreted predicate that stands for the conjunction of the class's
+    invariant clauses (assumed exactly where the revealed clauses are; revealed on demand)"""
+    if clsname not in _inv_preds:
+        _inv_preds[clsname] = z3.Function('INV_' + clsname, term.sort(), z3.BoolSort())
+    return _inv_preds[clsname](term)
+
+
+def reveal_inv(clsname, term):
+    """definition of the opaque invariant at one term"""
+    o = ObjView(SObj(clsname, term=term))
+    return INV(clsname, term) == land(*[_c(f(o)) for f in CLASSES[clsname].all_invariants().values()])
+
+
+def _c(x):
+    if isinstance(x, (list, tuple)):
+        return z3.And(*x)
+    return x
